@@ -17,7 +17,8 @@ for d in sorted(glob.glob(root + '/*/meta.json')):
         entry = {'cmd': 'selftest/run_seeded.py --demo --only %s' % name, 'status': r['status'], 'detail': r['detail'][:300]}
         m['ran'] = [e for e in m.get('ran', []) if e.get('cmd') != entry['cmd']] + [entry]
         json.dump(m, open(d, 'w'), indent=1)
-    notes = open(os.path.join(os.path.dirname(d), 'notes.md')).read()
+    np_ = os.path.join(os.path.dirname(d), 'notes.md')
+    notes = open(np_).read() if os.path.exists(np_) else m.get('needs', '')
     first = next((ln.strip('# ').strip() for ln in notes.splitlines() if ln.strip()), '')
     ran = m.get('ran', [])
     status = ran[-1]['status'] if ran else 'not run'
